@@ -4,7 +4,8 @@
 //!
 //!   pool <n> <op>*   op = T (take) | Y (try-take with timeout) | D<i> (drop i-th live token)
 //!   acc  <n> <cmd>*  cmd = c (client connects) | e<k> (the handler drops the Token of connection k)
-//!                        | r (revoke) | f<e> (thorough: accept() fails with EMFILE for a while)
+//!                        | r (revoke) | f<e> (accept() fails with EMFILE for 200+500e ms while a client knocks)
+//!                        | F<e> (the same, and the permit is revoked while accept() is still failing)
 #![allow(dead_code)]
 use crate::srv_common::*;
 use permit::Permit;
@@ -153,6 +154,7 @@ fn acc_case(toks: &[String]) -> (String, bool) {
             }
         }
     };
+    let mut scratch_clients: Vec<Option<TcpStream>> = Vec::new(); // knocked while accept() failed, never admitted
     for c in &toks[2..] {
         let c = c.as_str();
         if c == "c" {
@@ -165,16 +167,26 @@ fn acc_case(toks: &[String]) -> (String, bool) {
             let k: usize = k.split(':').next().unwrap().parse().unwrap();
             do_end(k);
             pred.end(k);
-        } else if let Some(_e) = c.strip_prefix('f') {
+        } else if let Some(e) = c.strip_prefix('f').or_else(|| c.strip_prefix('F')) {
             // accept failures: lower the descriptor limit below what accept() needs, let a client
-            // knock, keep it so for a while, then restore the limit.
+            // knock, keep it so for 200 + 500*e ms (e retry rounds of the loop's 500 ms pause), then
+            // restore the limit.  F<e>: the permit is revoked while accept() is still failing.
+            let e: u64 = e.parse().unwrap_or(1).max(1);
             let mut lim = [0u64; 2];
             unsafe { getrlimit(RLIMIT_NOFILE, &mut lim) };
             let cur = open_fds();
             let client = TcpStream::connect_timeout(&addr, Duration::from_millis(1000)).ok();
             let low = [cur.min(lim[0]), lim[1]];
             unsafe { setrlimit(RLIMIT_NOFILE, &low) };
-            std::thread::sleep(Duration::from_millis(700));
+            std::thread::sleep(Duration::from_millis(200 + 500 * e));
+            if c.starts_with('F') {
+                top.revoke();
+                pred.revoke();
+                step(&pred, &mut stopped, &mut out, &mut matched);
+                unsafe { setrlimit(RLIMIT_NOFILE, &lim) };
+                scratch_clients.push(client);
+                continue;
+            }
             unsafe { setrlimit(RLIMIT_NOFILE, &lim) };
             clients.push(client);
             pred.connect();
